@@ -1,9 +1,9 @@
 /-
 Model/Info/Dsf.lean — mutagen/dsf.py: `DSFFile(fileobj)` (`DSDChunk.load`, `FormatChunk.load`,
 `DataChunk.load`, each reading from where the previous one stopped) and the properties of `DSFInfo`
-(code side).  `DSFInfo.length` is computed when it is read: `float(sample_count) / sample_rate` — with a
-sampling frequency of 0 the file loads and reading `info.length` (or `DSF.pprint()`) raises
-ZeroDivisionError; `parse` is "load, then read every attribute".
+(code side).  `DSFInfo.length` is computed when it is read: `float(sample_count) / sample_rate`; `FormatChunk.load`
+refuses a sampling frequency of 0 (since 71557fa; before, the file loaded and reading `info.length`
+raised ZeroDivisionError).  `parse` is "load, then read every attribute".
 -/
 import MutagenModel.Model.Info.Common
 set_option linter.unusedVariables false
@@ -44,6 +44,7 @@ def load (f : Bytes) : Except PyErr Fmt :=
     else if ofLE (readAt m 4 8) ≠ 52 then .error .mutagen
     else if ofLE (readAt m 12 4) ≠ 1 then .error .mutagen
     else if ofLE (readAt m 16 4) ≠ 0 then .error .mutagen
+    else if ofLE (readAt m 28 4) = 0 then .error .mutagen       -- "sampling frequency can't be zero"
     else
       -- DataChunk.load
       let a := readAt f 80 12
@@ -55,10 +56,10 @@ def load (f : Bytes) : Except PyErr Fmt :=
               samplingFrequency := ofLE (readAt m 28 4), bitsPerSample := ofLE (readAt m 32 4),
               sampleCount := ofLE (readAt m 36 8) }
 
-/-- reading `channels`, `sample_rate`, `bits_per_sample`, `bitrate`, `length` of `DSFInfo(fmt_chunk)` -/
+/-- reading `channels`, `sample_rate`, `bits_per_sample`, `bitrate`, `length` of `DSFInfo(fmt_chunk)`
+(the sampling frequency is not 0: `FormatChunk.load` refuses that) -/
 def attrs (c : Fmt) : Except PyErr Info :=
-  if c.samplingFrequency = 0 then .error .zeroDiv
-  else .ok { channels := c.channelNum, sampleRate := c.samplingFrequency, bitsPerSample := c.bitsPerSample,
+  .ok { channels := c.channelNum, sampleRate := c.samplingFrequency, bitsPerSample := c.bitsPerSample,
              bitrate := c.samplingFrequency * c.bitsPerSample * c.channelNum,
              length := .div (.flt (.nat c.sampleCount)) (.nat c.samplingFrequency) }
 
